@@ -3,6 +3,7 @@
 package cl
 
 import (
+	"math"
 	"math/big"
 
 	"github.com/ohler55/slip"
@@ -48,6 +49,9 @@ func (f *Gcd) Call(s *slip.Scope, args slip.List, depth int) slip.Object {
 			slip.TypePanic(s, depth, "integers", a, "integer")
 		}
 		if num < 0 {
+			if num == math.MinInt64 { // can not be negated as a fixnum
+				return bigGcd(s, args, depth)
+			}
 			num = -num
 		}
 		if i == 0 { // first one
